@@ -258,33 +258,68 @@ def ofSeps (j : Json) : Except String (Option (List (Nat × Nat))) :=
 
 /-- the operation tree obtained from the TEXT: loader model on every module text (preloaded string
 modules first, the main text last), then `Link.linkModule`. -/
-def textOps (defs : List RuleDef) (j : Json) : Except String (List Op) := do
+structure TextCtx where
+  env : Loader.Env
+  E : Link.LinkEnv            -- `mods` = the preloaded modules only; `Link.applyText` adds the file-loaded ones
+  lines : List Str
+  k : Nat
+
+/-- what `Link.applyText` needs, read from the request: the preloaded string modules are loaded with the
+loader model first (in the harness's order), the main text is left to `Link.applyText`. -/
+def textCtx (defs : List RuleDef) (j : Json) : Except String TextCtx := do
   let lk ← j.getObjVal? "link"
   let active ← (← getArr lk "active").mapM ofCps
   let maskpats ← (← getArr lk "masks").mapM ofCps
   let lts ← getArr j "ltexts"
   let mut mods : List (Str × Loader.Module) := []
-  let mut main : Option (Loader.Module × List (Str × Loader.Module)) := none
+  let mut main : Option (Loader.Env × List Str × Nat) := none
   for lt in lts do
     let env ← Ld.envOf lt
     let lines ← (← getArr lt "lines").mapM ofCps
     let label ← getCps lt "label"
-    match Loader.loadLines env (← getNat lt "fuel") lines with
-    | .error e => throw s!"model: load {Ld.errTag e}"
-    | .ok (m, ms) =>
-      if label = "main".toList then main := some (m, ms) else mods := mods ++ [(label, m)]
+    let k ← getNat lt "fuel"
+    if label = "main".toList then main := some (env, lines, k)
+    else match Loader.loadLines env k lines with
+      | .error e => throw s!"model: load {Ld.errTag e}"
+      | .ok (m, _) => mods := mods ++ [(label, m)]
   match main with
   | none => throw "no main text"
-  | some (m, ms) =>
-    let E : Link.LinkEnv := {
-      ruleId := fun p t => ((defs.find? (fun d => d.pat = p && d.tpl = t)).map (·.id)).getD 999999,
-      maskId := fun p => (maskpats.findIdx? (· = p)).getD 999999,
-      ngroups := fun p => ((defs.find? (fun d => d.pat = p)).map (·.ngroups)).getD 0,
-      names := fun p => ((defs.find? (fun d => d.pat = p)).map (·.names)).getD [],
-      mods := mods ++ ms, active := active }
-    match Link.linkModule E (← getNat j "fuel") m with
+  | some (env, lines, k) =>
+    pure { env := env, lines := lines, k := k,
+           E := { ruleId := fun p t => ((defs.find? (fun d => d.pat = p && d.tpl = t)).map (·.id)).getD 999999,
+                  maskId := fun p => (maskpats.findIdx? (· = p)).getD 999999,
+                  ngroups := fun p => ((defs.find? (fun d => d.pat = p)).map (·.ngroups)).getD 0,
+                  names := fun p => ((defs.find? (fun d => d.pat = p)).map (·.names)).getD [],
+                  mods := mods, active := active } }
+
+/-- only for the `treeagree` flag: the operation tree linked from the text. -/
+def textOps (c : TextCtx) (fuel : Nat) : Except String (List Op) :=
+  match Loader.loadLines c.env c.k c.lines with
+  | .error e => throw s!"model: load {Ld.errTag e}"
+  | .ok (m, ms) =>
+    match Link.linkModule { c.E with mods := c.E.mods ++ ms } fuel m with
     | .error e => throw s!"model: link {errTag e}"
     | .ok ops => pure ops
+
+def tErrTag : Link.TErr → String
+  | .load e => "load:" ++ Ld.errTag e
+  | .run e => errTag e
+
+/-- one input through `Link.applyText` — the function the text-level theorems are about. -/
+def runText (c : TextCtx) (tab : List EngEntry) (fuel : Nat) (input : Str) (seps : Option (List (Nat × Nat))) : Json :=
+  match Link.applyText c.env c.E (engOf tab) c.k fuel c.lines input with
+  | .error e => jErr (tErrTag e)
+  | .ok (steps, res) =>
+    if !stepsCovered tab steps then jErr "engine" else finishRun (jList jStep steps) res seps
+
+/-- one input through `Link.applyTextM` (mask-threading semantics). -/
+def runTextM (c : TextCtx) (tab mtab : List EngEntry) (fuel : Nat) (input : Str) (seps : Option (List (Nat × Nat))) : Json :=
+  match Link.applyTextM c.env c.E (engOf tab) (engOf mtab) c.k fuel c.lines input with
+  | .error e => jErr (tErrTag e)
+  | .ok (stm, res) =>
+    let steps := stm.map (·.step)
+    if !stepsCovered tab steps || !maskStepsCovered mtab steps then jErr "engine"
+    else finishRun (jList jStepM stm) res seps
 
 def handle (j : Json) : Except String Json := do
   let op ← getStr j "op"
@@ -297,20 +332,27 @@ def handle (j : Json) : Except String Json := do
     let lines ← (← getArr j "prog").mapM (ofLine defs)
     let opsTree := flattenLines lines
     -- with "link": run what the TEXT gives (load + link); report whether the harness's tree is the same
-    let (ops, agree) ← match j.getObjVal? "link" with
-      | .ok _ => do
-        let o ← textOps defs j
-        pure (o, Json.bool (reprStr o == reprStr opsTree))
-      | .error _ => pure (opsTree, Json.null)
     let tab ← (← getArr j "eng").mapM ofEngEntry
     let inputs ← (← getArr j "inputs").mapM ofCps
     let sepsL ← (← getArr j "seps").mapM ofSeps
     let fuel ← getNat j "fuel"
-    let runs ← match j.getObjVal? "meng" with
-      | .ok (Json.arr a) => do
-        let mtab ← a.toList.mapM ofEngEntry
-        pure ((inputs.zip sepsL).map (fun (inp, sp) => runOneM tab mtab ops fuel inp sp))
-      | _ => pure ((inputs.zip sepsL).map (fun (inp, sp) => runOne tab ops fuel inp sp))
+    let mtab? ← match j.getObjVal? "meng" with
+      | .ok (Json.arr a) => do pure (some (← a.toList.mapM ofEngEntry))
+      | _ => pure none
+    let (runs, agree) ← match j.getObjVal? "link" with
+      | .ok _ => do
+        -- the model runs `Link.applyText` / `Link.applyTextM` on the TEXT; the harness's tree is only compared
+        let c ← textCtx defs j
+        let o ← textOps c fuel
+        let rs := match mtab? with
+          | some mtab => (inputs.zip sepsL).map (fun (inp, sp) => runTextM c tab mtab fuel inp sp)
+          | none => (inputs.zip sepsL).map (fun (inp, sp) => runText c tab fuel inp sp)
+        pure (rs, Json.bool (reprStr o == reprStr opsTree))
+      | .error _ =>
+        let rs := match mtab? with
+          | some mtab => (inputs.zip sepsL).map (fun (inp, sp) => runOneM tab mtab opsTree fuel inp sp)
+          | none => (inputs.zip sepsL).map (fun (inp, sp) => runOne tab opsTree fuel inp sp)
+        pure (rs, Json.null)
     let loaded ← match j.getObjVal? "ltexts" with
       | .ok (Json.arr a) => a.toList.mapM (fun lt => do
           let env ← Ld.envOf lt
